@@ -855,7 +855,7 @@ func (vc *VC) appendOp(st *State, v *ssa.Call, args []Term, guard string) {
 	// appending nothing returns s
 	r := vc.fresh("app", "Slice")
 	fits := sx("<=", sx("+", sx("sl_len", s.S), tlen), sx("sl_cap", s.S))
-	fr := vc.allocRef("appbk")
+	fr := vc.allocRef("app_" + v.Name())
 	newLen := sx("+", sx("sl_len", s.S), tlen)
 	vc.assume(sx("=", sx("sl_len", r), newLen))
 	vc.assume(sx("=", r, sx("ite", fits,
